@@ -174,12 +174,24 @@ impl Prop for C04 {
                     wrapper = ("<ul><li>", "</li></ul>");
                     if lw < 3 { continue; }
                     eff = lw - 2;
+                    // max_wrap_width inside a prefixed block: the effective width is min(m, w - prefix), not min(m, w)
+                    // (added after the seeded change C04-max-wrap-clamped-against-top-width was missed by this stream)
+                    if r.p(50) {
+                        let m = 1 + r.u(30);
+                        cfg.max_wrap = Some(m);
+                        eff = m.min(lw - 2);
+                    }
                 }
                 3 => {
                     cfg = Cfg::base(crate::cfg::Deco::Plain);
                     wrapper = ("<blockquote>", "</blockquote>");
                     if lw < 3 { continue; }
                     eff = lw - 2;
+                    if r.p(50) {
+                        let m = 1 + r.u(30);
+                        cfg.max_wrap = Some(m);
+                        eff = m.min(lw - 2);
+                    }
                 }
                 4 => {
                     cfg = Cfg::base(crate::cfg::Deco::Rich);
@@ -200,7 +212,9 @@ impl Prop for C04 {
             Some((e, w)) => (e.parse::<usize>().unwrap_or(c.width), w.split(' ').filter(|x| !x.is_empty()).map(|x| x.to_string()).collect::<Vec<_>>()),
             None => return out, // corpus case without expectation: correspondence only
         };
-        let prefix = c.width - eff.min(c.width);
+        // the prefixed variants use the plain decorator's two-column prefixes (`* `, `> `); with max_wrap_width the
+        // effective width is no longer width - prefix, so the prefix is not computed from it
+        let prefix = 2;
         let has_prefix = c.html.starts_with(b"<ul") || c.html.starts_with(b"<blockquote");
         let exp = greedy_wrap(&words, eff);
         match (o, exp) {
